@@ -451,7 +451,7 @@ func c12Decoder(r *Run) {
 		r.Floor("dereferences of the decoded entry in GetEntries", len(derefs), 1)
 		r.FailEdge(fn, "GetEntries", EdgeSpec{Name: "entry-undecodable", Atom: boolAtom("x509.IsFatal(ct.LogEntryFromLeaf(*)#1)"), Bad: "T", Want: wantErr(true), Unreach: derefs})
 		if c := r.OneCall(fn, "GetEntries:decode", "ct.LogEntryFromLeaf"); c != nil {
-			r.ExpectArg(c, "GetEntries:decode.index", 0, "((1 + it@*) + p2) || (p2 + (1 + it@*))")
+			r.ExpectArg(c, "GetEntries:decode.index", 0, "(it@* + p2) || (p2 + it@*)")
 		}
 	}
 }
